@@ -24,6 +24,7 @@ type vSpec struct {
 	NoListInList   bool
 	NoEmptyList    bool
 	NoEmptyMap     bool
+	StrMin         int
 }
 
 type vRef struct {
